@@ -412,7 +412,7 @@ def rand_off(rng, zones=True):
         return rng.choice([3600, -3600, 19800, -12600, 50400, -50400, 53999, -53999, 1, -1, 59, -59, 60, -60, 1800, -1800, 45 * 60, -(9 * 3600 + 30 * 60)])
     off = rng.randint(-53999, 53999)
     if rng.random() < 0.7:
-        off = off // 60 * 60
+        off = abs(off) // 60 * 60 * (1 if off > 0 else -1)     # towards zero: stays within +-14:59
     return off if off != 0 else 3600
 
 
@@ -439,6 +439,7 @@ def rand_dt(rng, near=None, zones=True):
         d = rng.choice([1, last_day(y, m), rng.randint(1, last_day(y, m))])
     if abs(y) < 1000:
         y = 1000 + abs(y)
+        d = min(d, last_day(y, m))
     h = rng.choice([0, 23, 12, rng.randint(0, 23)])
     mi = rng.choice([0, 59, rng.randint(0, 59)])
     s = rng.choice([0, 59, rng.randint(0, 59)])
